@@ -388,7 +388,7 @@ func genC06base(t *rapid.T) C06Case {
 			}
 			return C06Case{A: val.JSON(a), B: val.JSON(b), Wrap: wrap}
 		}
-		if gen.Chance(t, "veryLong", 2) {
+		if gen.Rare(t, "veryLong", 2) {
 			// longer than any plausible block size, edited at both ends
 			n = gen.Int(t, "nVeryLong", 300, 700*gen.Scale())
 			a := make([]val.V, n)
